@@ -8,12 +8,6 @@ import (
 	"verif/harness/internal/wire"
 )
 
-// transportKeys are batch metadata keys that belong to a transport's framing
-// or correlation, not to what the stream method produced.
-var transportKeys = map[string]bool{
-	wire.KeyStreamState: true, wire.KeyCallState: true, wire.KeyRequestID: true, wire.KeyServerID: true,
-}
-
 // BatchKey is the transport-independent normal form of one observed batch:
 //
 //	data   schema + values + user metadata
@@ -40,9 +34,12 @@ func BatchKey(b wire.Batch) string {
 	case wire.KindError:
 		return fmt.Sprintf("error|%q|%q|%q", b.ErrType, b.ErrMessage, b.ErrKind)
 	}
+	// data: everything but the HTTP transport's own token keys is the method's
+	// metadata (neither transport adds request / server ids to a data batch, so
+	// a method that emits such a key must see it arrive on both)
 	keys := make([]string, 0, len(b.Meta))
 	for k := range b.Meta {
-		if !transportKeys[k] {
+		if k != wire.KeyStreamState && k != wire.KeyCallState {
 			keys = append(keys, k)
 		}
 	}
